@@ -95,7 +95,11 @@ def run(ctx):
     report.extra["not_compared_here"] = skipped
     # ---- R2 flag bits
     for tn, helper in (("ResourceRecord", "simple_dns::ResourceRecord::write_common"), ("Question", "simple_dns::Question::write_common")):
-        wcb = ctx.must_find(report, helper)
+        # the shared writer, or - when it has been merged into something else - the writer entry point itself (whatever
+        # replaced the helper has been inlined back into it)
+        wcb = ctx.prog.find(helper) or wbs.get(tn)
+        if wcb is None:
+            report.lost_anchor(helper)
         pb = pbs.get(tn)
         report.count()
         if wcb is None or pb is None:
@@ -140,8 +144,8 @@ def class_word_rule(ctx, report, rule="C02-R2"):
     classes = [(v["name"], int(v["discr"])) for v in cadt["variants"]]
     a_ix = [i for i, v in enumerate(radt["variants"]) if v["name"] == "A"][0]
     cases = []
-    qb = prog.find("simple_dns::Question::write_common")
-    rb = prog.find("simple_dns::ResourceRecord::write_common")
+    qb = prog.find("simple_dns::Question::write_common") or prog.find("simple_dns::<Question as WireFormat>::write_to")
+    rb = prog.find("simple_dns::ResourceRecord::write_common") or prog.find("simple_dns::<ResourceRecord as WireFormat>::write_to")
     if qb is not None:
         qvals = [(EnumVal("QCLASS", "CLASS", [EnumVal("CLASS", n)]), c, "CLASS(%s)" % n) for n, c in classes]
         for v in qadt["variants"]:
